@@ -307,7 +307,7 @@ def build(states, slots, cluster_bits=16, version=3, size=None, window_at=0, tot
             exts += extension(m, d)
         if backing_format is not None:
             exts += extension(EXT_BACKING_FORMAT, backing_format.encode())
-        if data_file:
+        if data_file and data_file != "anon":  # the name extension is optional: the caller may have to supply the file anyway
             exts += extension(EXT_DATA_FILE, b"verif-data.raw")
         if with_end_ext and (version >= 3 or backing_format is not None):
             exts += extension(0, b"")
